@@ -62,6 +62,29 @@ func c06(c *wk.Ctx) {
 	}
 }
 
+// validGenerators: the g in 2..7 for which the specification's condition on p holds (g = 4 needs none).
+func validGenerators(p *big.Int) []int32 {
+	mod := func(m int64) int64 { return new(big.Int).Mod(p, big.NewInt(m)).Int64() }
+	var out []int32
+	if mod(8) == 7 {
+		out = append(out, 2)
+	}
+	if mod(3) == 2 {
+		out = append(out, 3)
+	}
+	out = append(out, 4)
+	if m := mod(5); m == 1 || m == 4 {
+		out = append(out, 5)
+	}
+	if m := mod(24); m == 19 || m == 23 {
+		out = append(out, 6)
+	}
+	if m := mod(7); m == 3 || m == 5 || m == 6 {
+		out = append(out, 7)
+	}
+	return out
+}
+
 func prevPrime(n uint64) uint64 {
 	for ; ; n-- {
 		if new(big.Int).SetUint64(n).ProbablyPrime(20) {
@@ -104,6 +127,13 @@ func c06case(c *wk.Ctx, idx int, r *rand.Rand, pl c06plan, t *rngTee) {
 			cn.SendEncrypted(refserver.Out{MsgID: srv.NextMsgID(1), SeqNo: cn.NextSeq(true), Body: refserver.RPCResult(in.MsgID, res)}, salt, "rpc_result", map[string]interface{}{"uid": fmt.Sprint(uid)})
 		}
 	}))
+	// the server's own choices: its RSA key (any RSA-2048 key: public exponents 65537, 3, 257, 2^31-1) and its
+	// generator (any g in 2..7 that the specification allows for the prime)
+	srv.RSA = refserver.TestKeys()[(idx/2)%4]
+	gens := validGenerators(mtp.DHPrime)
+	srv.G = gens[(idx/3)%len(gens)]
+	c.Count(fmt.Sprintf("server.rsa_e=%d", srv.RSA.E), 1)
+	c.Count(fmt.Sprintf("server.g=%d", srv.G), 1)
 	g := big.NewInt(int64(srv.G))
 	// ---- fix the draws of both sides
 	serverNonce := rbytes(r, 16)
@@ -258,7 +288,7 @@ func c06case(c *wk.Ctx, idx int, r *rand.Rand, pl c06plan, t *rngTee) {
 	} else if pl.Kind == "pq" {
 		tag = "pq/" + pl.PQKind
 	}
-	desc := fmt.Sprintf("[%s] nonce=%x server_nonce=%x new_nonce=%x p=%d q=%d offered-keys=%s", tag, nonce, serverNonce, newNonce, p, q, offer)
+	desc := fmt.Sprintf("[%s] nonce=%x server_nonce=%x new_nonce=%x p=%d q=%d offered-keys=%s rsa-e=%d g=%d", tag, nonce, serverNonce, newNonce, p, q, offer, srv.RSA.E, srv.G)
 	c.Count("offered_keys."+offer, 1)
 	if !done {
 		if stalled, dump := isStalled(); stalled {
